@@ -1,4 +1,5 @@
 import PharmpyModel.C03.Wire
+import PharmpyModel.C03.CodeRecord
 open Pharmpy Pharmpy.C03
 
 def bad : Sexp := .list [.atom "err", .atom "bad-op"]
@@ -13,6 +14,30 @@ def leavesS (ls : List (String × Str)) : Sexp :=
 def natOpt? : Sexp → Option (Option Nat)
   | .atom "none" => some none
   | x => x.asNat?.map some
+
+/-! plumbing for the code-record ops (same wire shapes as the C02 driver) -/
+def ints? (x : Sexp) : Option (List Int) := do
+  let xs ← x.asList?
+  xs.mapM Sexp.asInt?
+
+def idx? (x : Sexp) : Option (List C02.Idx) := do
+  let xs ← x.asList?
+  xs.mapM (fun p => match p with
+    | .list [a, b, c, d] => do some ((← a.asNat?), (← b.asNat?), (← c.asNat?), (← d.asNat?))
+    | _ => none)
+
+def idxS (ix : List C02.Idx) : Sexp :=
+  .list (ix.map (fun e => .list [Sexp.ofNat e.1, Sexp.ofNat e.2.1, Sexp.ofNat e.2.2.1, Sexp.ofNat e.2.2.2]))
+
+def intPairs? (x : Sexp) : Option (List (Int × Nat)) := do
+  let xs ← x.asList?
+  xs.mapM (fun p => match p with
+    | .list [a, b] => do some ((← a.asInt?), (← b.asNat?))
+    | _ => none)
+
+/-- generated node `k` of statement `s`: a label no old node carries. -/
+def genNodes (lens : List (Int × Nat)) (s : Int) : List Int :=
+  (List.range ((lens.lookup s).getD 1)).map (fun (k : Nat) => (1000000 : Int) + s * 100 + (k : Int))
 
 def handle (req : Sexp) : Sexp :=
   match req with
@@ -58,6 +83,17 @@ def handle (req : Sexp) : Sexp :=
     match recs? rs, rec? r, natOpt? ati, active.asInt? with
     | some rs, some r, some ati, some active => recsS (insertRecord rs r ati active)
     | _, _, _, _ => bad
+  | .list [.atom "recupdate", ch, ix, fb, o, n, lens] =>
+    -- one update_statements call: (ok children index nonStmtOld nonStmtNew invOld invNew) | (err generator-fails invOld)
+    match ints? ch, idx? ix, fb.asNat?, ints? o, ints? n, intPairs? lens with
+    | some ch, some ix, some fb, some o, some n, some lens =>
+      let invOld := Sexp.ofBool (recInvB ch ix o.length)
+      match C02.updateStatements (genNodes lens) ch ix fb (C02.diff o n) with
+      | some (c, i) =>
+        .list [.atom "ok", .list (c.map Sexp.ofInt), idxS i, .list ((nonStmtNodes ch ix).map Sexp.ofInt),
+               .list ((nonStmtNodes c i).map Sexp.ofInt), invOld, Sexp.ofBool (recInvB c i n.length)]
+      | none => .list [.atom "err", .atom "generator-fails", invOld]
+    | _, _, _, _, _, _ => bad
   | .list [.atom "getrecords", rs, name, pno] =>
     match recs? rs, decStr? name, pno.asInt? with
     | some rs, some name, some pno => recsS (getRecords rs (String.ofList name) pno)
